@@ -464,6 +464,103 @@ def gen_inst_subscribe(sd):
             + skel_ret(body, cond) + ".\n"]
 
 
+# ---- sd.py: ServiceSubscriber (what a subscribe / stop-subscribe call records and defers; C14) ----
+def is_pair_arg(call, method):
+    """self.subscribeentries.<method>((eventgroup, endpoint))"""
+    return (dotted(call.func) == "self.subscribeentries." + method and not call.keywords and len(call.args) == 1
+            and isinstance(call.args[0], ast.Tuple) and [getattr(e, "id", None) for e in call.args[0].elts] == ["eventgroup", "endpoint"])
+
+
+def soon_one(call):
+    """asyncio.get_event_loop().call_soon(self._send_{start,stop}_subscribe, endpoint, [eventgroup]) -> constructor"""
+    if not (isinstance(call.func, ast.Attribute) and call.func.attr == "call_soon" and isinstance(call.func.value, ast.Call)
+            and dotted(call.func.value.func) == "asyncio.get_event_loop" and not call.func.value.args and not call.keywords and len(call.args) == 3):
+        return None
+    f, a, l = call.args
+    if getattr(a, "id", None) != "endpoint" or not (isinstance(l, ast.List) and [getattr(e, "id", None) for e in l.elts] == ["eventgroup"]):
+        return None
+    return {"self._send_start_subscribe": "SSoonStart", "self._send_stop_subscribe": "SSoonStop"}.get(dotted(f))
+
+
+def sub_stmts(stmts):
+    """statement list of subscribe_eventgroup / stop_subscribe_eventgroup -> Gallina term : list sact"""
+    if not stmts:
+        return "[]"
+    st, rest = stmts[0], stmts[1:]
+    if isinstance(st, ast.Expr) and isinstance(st.value, ast.Call):
+        if is_pair_arg(st.value, "append"):
+            return f"(SAppend :: {sub_stmts(rest)})"
+        c = soon_one(st.value)
+        if c:
+            return f"({c} :: {sub_stmts(rest)})"
+        raise Abort("subscriber: unsupported call " + str(dotted(st.value.func)))
+    if isinstance(st, ast.Try):
+        ok = (len(st.body) == 1 and isinstance(st.body[0], ast.Expr) and isinstance(st.body[0].value, ast.Call) and is_pair_arg(st.body[0].value, "remove")
+              and len(st.handlers) == 1 and getattr(st.handlers[0].type, "id", "") == "ValueError" and len(st.handlers[0].body) == 1
+              and isinstance(st.handlers[0].body[0], ast.Return) and st.handlers[0].body[0].value is None and not st.orelse and not st.finalbody)
+        if not ok:
+            raise Abort("subscriber: unexpected try")
+        return f"(if found then (SRemove :: {sub_stmts(rest)}) else [])"
+    if isinstance(st, ast.If) and not st.orelse:
+        name = dotted(st.test)
+        if name == "self.alive":
+            c = "alive"
+        elif name == "send":
+            c = "send"
+        else:
+            raise Abort("subscriber: unsupported condition")
+        return f"(if {c} then ({sub_stmts(st.body)} ++ {sub_stmts(rest)}) else {sub_stmts(rest)})"
+    raise Abort("subscriber: unsupported statement " + type(st).__name__)
+
+
+def gen_subscriber(sd):
+    out = []
+    S = sd.ServiceSubscriber
+    f = fn_ast(S.subscribe_eventgroup)
+    if [a.arg for a in f.args.args] != ["self", "eventgroup", "endpoint"]:
+        raise Abort("subscribe_eventgroup: unexpected parameters")
+    out.append(f"Definition gen_sub_subscribe (alive : bool) : list sact :=\n  {sub_stmts(body_of(f))}.\n")
+    f = fn_ast(S.stop_subscribe_eventgroup)
+    if [a.arg for a in f.args.args] != ["self", "eventgroup", "endpoint", "send"]:
+        raise Abort("stop_subscribe_eventgroup: unexpected parameters")
+    out.append(f"Definition gen_sub_stop_subscribe (found send : bool) : list sact :=\n  {sub_stmts(body_of(f))}.\n")
+    # _send_start_subscribe / _send_stop_subscribe: self._send_subscribe(<ttl>, remote, entries)
+    for name, gname in (("_send_start_subscribe", "gen_sub_start_ttl"), ("_send_stop_subscribe", "gen_sub_stop_ttl")):
+        f = fn_ast(getattr(S, name))
+        b = body_of(f)
+        if ([a.arg for a in f.args.args] != ["self", "remote", "entries"] or len(b) != 1 or not isinstance(b[0], ast.Expr) or not isinstance(b[0].value, ast.Call)
+                or dotted(b[0].value.func) != "self._send_subscribe" or b[0].value.keywords or len(b[0].value.args) != 3
+                or [getattr(a, "id", None) for a in b[0].value.args[1:]] != ["remote", "entries"]):
+            raise Abort(name + ": unexpected shape")
+        t = b[0].value.args[0]
+        if isinstance(t, ast.Constant) and isinstance(t.value, int) and not isinstance(t.value, bool):
+            term = str(t.value)
+        elif dotted(t) == "self.timings.SUBSCRIBE_TTL":
+            term = "subscribe_ttl"
+        else:
+            raise Abort(name + ": unexpected TTL argument")
+        out.append(f"Definition {gname} (subscribe_ttl : N) : N := {term}.\n")
+    # _send_subscribe: self.sd.send_sd([e.create_subscribe_entry(ttl=ttl) for e in entries], remote=remote)
+    f = fn_ast(S._send_subscribe)
+    b = body_of(f)
+    ok = ([a.arg for a in f.args.args] == ["self", "ttl", "remote", "entries"] and len(b) == 1 and isinstance(b[0], ast.Expr) and isinstance(b[0].value, ast.Call))
+    if ok:
+        c = b[0].value
+        ok = (dotted(c.func) == "self.sd.send_sd" and len(c.args) == 1 and isinstance(c.args[0], ast.ListComp) and len(c.keywords) == 1
+              and c.keywords[0].arg == "remote" and getattr(c.keywords[0].value, "id", None) == "remote")
+    if ok:
+        lc = c.args[0]
+        g = lc.generators
+        ok = (len(g) == 1 and not g[0].ifs and getattr(g[0].target, "id", "") == "e" and getattr(g[0].iter, "id", "") == "entries"
+              and isinstance(lc.elt, ast.Call) and dotted(lc.elt.func) == "e.create_subscribe_entry" and not lc.elt.args
+              and len(lc.elt.keywords) == 1 and lc.elt.keywords[0].arg == "ttl" and getattr(lc.elt.keywords[0].value, "id", None) == "ttl")
+    if not ok:
+        raise Abort("_send_subscribe: unexpected shape")
+    out.append("Definition gen_sub_entries {G E : Type} (create_subscribe_entry : G -> N -> E) (ttl : N) (entries : list G) : list E :=\n"
+               "  map (fun e => create_subscribe_entry e ttl) entries.\n")
+    return out
+
+
 # ---- service.py: SimpleService.message_received (the reply decision chain of C16) ----
 MSG_ATTR = {"service_id": "m_sid m", "interface_version": "m_iv m", "method_id": "m_mid m", "message_type": "m_mt m", "return_code": "m_rc m"}
 SELF_ATTR = {"service_id": "svc_id", "version_major": "ver"}
@@ -576,7 +673,7 @@ def main():
         import someip.config as cfg
         import someip.sd as sd
         import someip.service as svc
-        parts = gen_matchers(cfg) + gen_check_received(sd) + gen_assign_outgoing(sd) + gen_skeletons(sd) + gen_inst_subscribe(sd) + gen_service(svc)
+        parts = gen_matchers(cfg) + gen_check_received(sd) + gen_assign_outgoing(sd) + gen_skeletons(sd) + gen_inst_subscribe(sd) + gen_subscriber(sd) + gen_service(svc)
     except Abort as exc:
         print("gen_logic: ABORT:", exc)
         return 2
